@@ -46,10 +46,12 @@ P["C03"] = dict(
         ("Props.C03.C03_named_types", "named, recursive types, nullable references: tree = union over reachable alternatives"),
         ("Props.C03.C03_alts_iff_reach", "depth-first type expansion = reachability through reference chains"),
         ("Props.C03.C03_additional_properties", "+ additionalProperties in all modes"),
+        ("Props.C03.C03_allOf_expand", "expanded object = own properties ++ properties of the expanded bases, all bases objects"),
+        ("Props.C03.C03_key_shortcuts", "+ key shortcuts (declaration order, one document key per shortcut): tree = spec"),
         ("Props.C03.C03_pinned_tree_false", "regression witness: the pre-fix tree accepts an invalid document")),
     runs=[{"cmd": ["sem-types"]}, {"cmd": ["sem-addprops"]}, {"cmd": ["sem-allof"]}, {"cmd": ["sem-keys"]}, {"cmd": ["sem-or"]}],
-    partial="key shortcuts (model VK) and allOf expansion (AO.compileAll) are validated against the code, not proved",
-    level_text="Proof (partial): the validator tree as the code keeps it (leaves map, shared parent validators, step back, depth-first type expansion with name de-duplication, additionalProperties modes) accepts exactly the union of the reachable alternatives at every position — theorems for all type environments (cyclic ones included), schemas and documents. allOf expansion and key shortcuts are executable models compared with the real Validate only. Tie: five differentials (types, additionalProperties, allOf, key shortcuts, or rule) from an IR generator printing JSight text for the real library and S-expressions for the Lean driver.",
+    partial="the additionalProperties merge of allOf (copy / must be equal) and its error cases are compared with the code, not characterised by a theorem; the key-shortcut spec is the greedy declaration-order reading",
+    level_text="Proof (partial): the validator tree as the code keeps it (leaves map, shared parent validators, step back, depth-first type expansion with name de-duplication, additionalProperties modes, key shortcuts) accepts exactly the union of the reachable alternatives at every position — theorems for all type environments (cyclic ones included), schemas and documents. The allOf expansion is an executable model compared with the real Validate only. Tie: five differentials (types, additionalProperties, allOf, key shortcuts, or rule) from an IR generator printing JSight text for the real library and S-expressions for the Lean driver.",
     level_note="Trusted: Lean kernel; models validated by T-diff (sampled); loader (text -> nodes) not modelled; overlapping key shortcuts are greedy by declaration order (scope, not finding).",
     technique="Lean 4 theorems (tree machine = union semantics, DFS = reachability) + differential correspondence")
 
